@@ -54,6 +54,36 @@ func decodeEntry(work string, mode int, file []byte, off int) string {
 	return "ok " + showFields(nutsdb.VerifEntryFields(e))
 }
 
+// decodeTwo reads the records at off1 and off2 through one DataFile and renders both afterwards.
+func decodeTwo(work string, mode int, file []byte, off1, off2 int) (string, string) {
+	p := filepath.Join(work, "c.dat")
+	os.Remove(p)
+	if err := ioutil.WriteFile(p, file, 0644); err != nil {
+		panic(err)
+	}
+	rw := nutsdb.FileIO
+	if mode == 1 {
+		rw = nutsdb.MMap
+	}
+	df, err := nutsdb.NewDataFile(p, int64(len(file)), rw)
+	if err != nil {
+		panic(err)
+	}
+	defer df.Close()
+	e1, err1 := df.ReadAt(off1)
+	e2, err2 := df.ReadAt(off2)
+	show := func(e *nutsdb.Entry, err error) string {
+		if err != nil {
+			return "err " + errKind(err)
+		}
+		if e == nil {
+			return "absent"
+		}
+		return "ok " + showFields(nutsdb.VerifEntryFields(e))
+	}
+	return show(e1, err1), show(e2, err2)
+}
+
 func decodeRootIdx(work string, file []byte, off int64) string {
 	p := filepath.Join(work, "c.bptridx")
 	os.Remove(p)
@@ -193,6 +223,27 @@ func suiteCodec(seed uint64, n int, work string) {
 				continue
 			}
 			check("truncation", img)
+		}
+		// two adjacent records read through ONE DataFile (as Open and Merge read a segment): the first entry must
+		// still hold its own fields after the second one was decoded
+		{
+			f2 := f
+			f2.Bucket = append([]byte{}, f.Bucket...)
+			for k := range f2.Bucket {
+				f2.Bucket[k] ^= 0x15
+			}
+			f2.Key = append(append([]byte{}, f.Key...), 'q')
+			f2.Value = pickBytes(r, 12)
+			enc2 := nutsdb.VerifNewEntry(f2).Encode()
+			emit("enc %s = %s", showFields(f2), hx(enc2))
+			file2 := append(append(append(append([]byte{}, pre...), enc...), enc2...), rest...)
+			g1, g2 := decodeTwo(work, mode, file2, len(pre), len(pre)+len(enc))
+			emit("dec %d %s %d = %s", mode, hx(file2), len(pre), g1)
+			emit("dec %d %s %d = %s", mode, hx(file2), len(pre)+len(enc), g2)
+			if g1 != want || g2 != "ok "+showFields(f2) {
+				specViol++
+				emit("#SPEC C21 two adjacent records decoded through one data file: wrote {%s} {%s} read {%s} {%s}", want, "ok "+showFields(f2), g1, g2)
+			}
 		}
 		// root index record
 		s, e := pickBytes(r, 10), pickBytes(r, 10)
